@@ -25,7 +25,10 @@ try:
     subprocess.run(["git", "init", "-q"], cwd=tmp, check=True)
     p = subprocess.run(["git", "apply", "--whitespace=nowarn", os.path.abspath(a.patch)], cwd=tmp, capture_output=True, text=True)
     if p.returncode != 0:
-        print("PATCH-DOES-NOT-APPLY", p.stderr.strip()[:500])
+        # the tree has moved on since the patch was written (fix commits): allow some fuzz
+        p = subprocess.run(f"patch -p1 -F3 -s < {os.path.abspath(a.patch)}", shell=True, cwd=tmp, capture_output=True, text=True)
+    if p.returncode != 0:
+        print("PATCH-DOES-NOT-APPLY", (p.stderr + p.stdout).strip()[:500])
         sys.exit(3)
     for prop in a.props:
         env = dict(os.environ, OPTYX_SRC=os.path.join(tmp, "src"), VERIF_OUT_DIR=os.path.join(tmp, "out"))
